@@ -1,4 +1,4 @@
-SPECIFICATION Spec
+SPECIFICATION SpecFast
 CONSTANTS
   M <- MCM
   SfSids <- MCSfSids
